@@ -23,7 +23,7 @@ def gen_cases(ctx):
     rng = ctx.rng
     quick = ctx.quick()
     cases = []
-    lens = [28, 29, 40, 41, 64, 100, 254, 255, 256, 257, 300, 511] if quick else list(range(28, 301)) + [509, 510, 511, 765, 766, 1000, 4096]
+    lens = [28, 41, 100, 255, 256, 300, 511] if quick else list(range(28, 301)) + [509, 510, 511, 765, 766, 1000, 4096]
     for fam in FIVE:
         for vi, (fmt, name, mk) in enumerate(K.TINY[fam]):
             a = mk()
@@ -49,8 +49,8 @@ def gen_cases(ctx):
             a = K.build_jpeg(variant=name)
             cases.append({"fmt": "jpg", "name": name, "asset": {"hex": a.hex()},
                           "ops": [{"op": "w", "s": {"gen": [n, 1]}}, {"op": "w", "s": {"gen": [n, 2]}}], "grp": "boundary"})
-    # JPEG layouts outside the admissible set of the theorems: stand-alone marker / foreign box with the same instance number
-    for name in ("tem", "tem_first", "foreign_same_en", "fill"):
+    # JPEG layouts with a stand-alone marker / a foreign JUMBF box with the same instance number (one and several packets)
+    for name in ("tem", "tem_first", "foreign_same_en", "foreign_same_en_multi", "fill"):
         a = K.build_jpeg(variant=name)
         cases.append({"fmt": "jpg", "name": name, "asset": {"hex": a.hex()},
                       "ops": [{"op": "w", "s": {"gen": [100, 1]}}, {"op": "w", "s": {"gen": [100, 2]}}], "grp": "special"})
